@@ -30,6 +30,7 @@ ASSUMPTIONS = ['"every byte sequence" is sampled by the damage operators above, 
                'EIO on a source read is treated by the lexer as end of file; the property only demands safety there']
 
 STRUCT = '{}()[];,:"\'#@$\\/*'
+EFUN_NAMES = ['sprintf', 'evaluate', 'sort_array', 'implode', 'keys']     # efuns the probe program calls
 
 
 def _valid_sources(rng):
@@ -50,7 +51,7 @@ def _valid_sources(rng):
 
 
 def _damage(rng, text, k):
-    kinds = ['del', 'ins', 'dup', 'trunc', 'unstr', 'uncomment', 'untext', 'unlit', 'if', 'endif', 'else', 'defself', 'defmutual', 'macroargs', 'incself', 'incmissing',
+    kinds = ['efunlocal', 'efunlocal', 'redeclare', 'redeclare', 'del', 'ins', 'dup', 'trunc', 'unstr', 'uncomment', 'untext', 'unlit', 'if', 'endif', 'else', 'defself', 'defmutual', 'macroargs', 'incself', 'incmissing',
              'incdeep', 'litdeep', 'locals', 'args', 'strings', 'funcs', 'longline', 'longident', 'longstr', 'dupfun', 'conflict', 'random', 'nul', 'high', 'inhmissing', 'inhlate', 'superunknown', 'defprobe', 'pragma', 'unlit3', 'unlit3', 'iffatal']
     kind = rng.choice(kinds)
     n = len(text)
@@ -109,6 +110,16 @@ def _damage(rng, text, k):
     elif kind == 'iffatal':
         # an open #if followed by an error that stops the lexer before the end of the file
         t = text[:nl] + '#if 1\n#ifdef NOPE\n#else\nint zq = ' + '1 + ' * 800 + '1;\n' + text[nl:]      # "Line too long" is fatal for the lexer
+    elif kind == 'efunlocal':
+        # locals and parameters named like efuns the probe uses, hidden by an anonymous function that the parser leaves early
+        names = rng.sample(EFUN_NAMES, 3)
+        tail = rng.choice(('function(int x, ) { return x; };\n return f;\n}\n', 'function(int x) { return x + ', 'function(int x) { int %s; return (: $1 + ' % names[2],
+                           'function(int x) { return x; };\n return f;\n}\n'))
+        t = text + '\nmixed zel(int %s, string %s) {\n int %s; function f;\n f = %s' % (names[0], names[1], names[2], tail)
+    elif kind == 'redeclare':
+        # a local redeclared in the same block (an error), named like an efun the probe uses
+        names = rng.sample(EFUN_NAMES, 2)
+        t = text + '\nvoid zrd(int %s) {\n int %s;\n int %s;\n { int %s; int %s; }\n}\n' % (names[1], names[0], names[0], names[1], names[1])
     elif kind == 'dupfun': t = text + '\nint zdup() { return 1; }\nint zdup() { return 2; }\nint zdup(int a);\n'
     elif kind == 'conflict': t = text + '\nint zc;\nstring zc;\nclass ZC { int a; }\nclass ZC { string a; }\nvoid zc() { }\n'
     elif kind == 'random':
